@@ -7,7 +7,26 @@
    in the library calls on them; they are instantiated here with the zone model of Model/Zone.v. *)
 From CG Require Import Model.Metrics.
 From CG Require Import Model.Loop Gen.Source Model.Recur.
-From CG Require Props.C13 Spec.RecurSpec Proofs.RecurExact2 Proofs.GcsaP Proofs.RecurP Proofs.RecurExact3 Proofs.MetricsP Proofs.MetricsP2.
+From CG Require Spec.RecurSpec Proofs.RecurExact2 Proofs.GcsaP Proofs.RecurP Proofs.RecurExact3 Proofs.MetricsP Proofs.MetricsP2.
+
+(* tzdata excerpts used by the examples (the tables of Props/C13.v, copied so that the property files
+   can quote this file) *)
+Definition g10_la : zone := mkZone (-28800)
+  [(1583661600, -25200); (1604221200, -28800); (1615716000, -25200); (1636275600, -28800);
+   (1647165600, -25200); (1667725200, -28800); (1678615200, -25200); (1699174800, -28800);
+   (1710064800, -25200); (1730624400, -28800); (1741514400, -25200); (1762074000, -28800)].
+Definition g10_havana : zone := mkZone (-18000)
+  [(1583643600, -14400); (1604206800, -18000); (1615698000, -14400); (1636261200, -18000);
+   (1647147600, -14400); (1667710800, -18000); (1678597200, -14400); (1699160400, -18000);
+   (1710046800, -14400); (1730610000, -18000); (1741496400, -14400); (1762059600, -18000)].
+Definition g10_chatham : zone := mkZone 49500
+  [(1586008800, 45900); (1601128800, 49500); (1617458400, 45900); (1632578400, 49500);
+   (1648908000, 45900); (1664028000, 49500); (1680357600, 45900); (1695477600, 49500);
+   (1712412000, 45900); (1727532000, 49500); (1743861600, 45900); (1758981600, 49500)].
+Definition g10_troll : zone := mkZone 0
+  [(1585443600, 7200); (1603587600, 0); (1616893200, 7200); (1635642000, 0);
+   (1648342800, 7200); (1667091600, 0); (1679792400, 7200); (1698541200, 0);
+   (1711846800, 7200); (1729990800, 0); (1743296400, 7200); (1761440400, 0)].
 From Coq Require Import ZArith List Bool Lia ZifyBool.
 Import ListNotations.
 Local Open Scope Z_scope.
@@ -104,19 +123,19 @@ Definition g_occ_of (r : rule) (occ : zdt) : ivl :=
    (2024-03-10 = day 19792) and with a start inside the gap (02:30) *)
 Definition ex_rule (sod dur : Z) (z : zone) : rule := mkRule Daily 1 [] [] [] [] [] None sod dur z.
 Example occ_ex1 :
-  occurrence_to_interval (ex_rule 32400 3600 CG.Props.C13.la) 19800
-  = Some (g_occ_of (ex_rule 32400 3600 CG.Props.C13.la) (occ_dt 19800)).
+  occurrence_to_interval (ex_rule 32400 3600 g10_la) 19800
+  = Some (g_occ_of (ex_rule 32400 3600 g10_la) (occ_dt 19800)).
 Proof. vm_compute. reflexivity. Qed.
 Example occ_ex2 :
-  occurrence_to_interval (ex_rule 9000 7200 CG.Props.C13.la) 19792
-  = Some (g_occ_of (ex_rule 9000 7200 CG.Props.C13.la) (occ_dt 19792))
-  /\ g_occ_of (ex_rule 9000 7200 CG.Props.C13.la) (occ_dt 19792)
+  occurrence_to_interval (ex_rule 9000 7200 g10_la) 19792
+  = Some (g_occ_of (ex_rule 9000 7200 g10_la) (occ_dt 19792))
+  /\ g_occ_of (ex_rule 9000 7200 g10_la) (occ_dt 19792)
      = mkI (Some 1710066600) (Some 1710073800) Plain.
 Proof. vm_compute. split; reflexivity. Qed.
 (* in the autumn fold (2024-11-03 = day 20030, 01:30 for 30 minutes) *)
 Example occ_ex3 :
-  occurrence_to_interval (ex_rule 5400 1800 CG.Props.C13.la) 20030
-  = Some (g_occ_of (ex_rule 5400 1800 CG.Props.C13.la) (occ_dt 20030)).
+  occurrence_to_interval (ex_rule 5400 1800 g10_la) 20030
+  = Some (g_occ_of (ex_rule 5400 1800 g10_la) (occ_dt 20030)).
 Proof. vm_compute. reflexivity. Qed.
 
 (* the sharp form: the two agree exactly when the start instant survives the round trip
@@ -254,10 +273,10 @@ Proof.
 Qed.
 Print Assumptions zone_rt_wf.
 
-Example zone_rt_la : zone_rt CG.Props.C13.la.
+Example zone_rt_la : zone_rt g10_la.
 Proof. apply zone_rt_wf. vm_compute. reflexivity. Qed.
 Example zone_rt_others :
-  zone_rt CG.Props.C13.havana /\ zone_rt CG.Props.C13.chatham /\ zone_rt CG.Props.C13.troll.
+  zone_rt g10_havana /\ zone_rt g10_chatham /\ zone_rt g10_troll.
 Proof. repeat split; apply zone_rt_wf; vm_compute; reflexivity. Qed.
 
 (* the condition matters: two backward jumps whose folds overlap on the wall clock — the local
@@ -278,7 +297,7 @@ Proof. cbv zeta. split; [unfold rule_accepted, DAY; cbn; lia|]. vm_compute. spli
 
 (* the headline applies to the Los Angeles table *)
 Example g_recur_occurrence_to_interval_eq_la : forall d,
-  let r := ex_rule 32400 3600 CG.Props.C13.la in
+  let r := ex_rule 32400 3600 g10_la in
   occurrence_to_interval r d = Some (g_occ_of r (occ_dt d)).
 Proof.
   intros d r. apply g_recur_occurrence_to_interval_eq.
@@ -367,8 +386,8 @@ Definition g_res_opt {A} (r : res A) : option A := match r with RDone a => Some 
 (* sanity *)
 Eval vm_compute in (g_windows_of 10 utc_zone 0 10000 Metrics.PHour, period_windows_dt utc_zone 0 10000 Metrics.PHour).
 Eval vm_compute in (g_windows_of 2 utc_zone 0 10000 Metrics.PHour).
-Eval vm_compute in (g_windows_of 10 CG.Props.C13.la 1710000000 1710300000 Metrics.PDay,
-                    period_windows_dt CG.Props.C13.la 1710000000 1710300000 Metrics.PDay).
+Eval vm_compute in (g_windows_of 10 g10_la 1710000000 1710300000 Metrics.PDay,
+                    period_windows_dt g10_la 1710000000 1710300000 Metrics.PDay).
 
 (* the loop: iter_while over (windows, current) with an appending body is win_loop, for every
    fuel, accumulator and start — both test the condition before looking at the fuel *)
@@ -458,7 +477,7 @@ Definition windows_fuel (z : zone) (a b : Z) (p : period) : nat :=
   end.
 
 Eval vm_compute in (windows_fuel utc_zone 0 10000 Metrics.PHour,
-                    windows_fuel CG.Props.C13.la 1700000000 1710000000 Metrics.PMonth).
+                    windows_fuel g10_la 1700000000 1710000000 Metrics.PMonth).
 
 (* (2) HEADLINE B: with at least the model's fuel the generated function returns the model's
    windows (start_ts >= end_ts and PFull need no fuel: windows_fuel is then irrelevant / 0) *)
@@ -567,17 +586,17 @@ Example windows_ex_year :
 Proof. vm_compute. reflexivity. Qed.
 (* Los Angeles over the 2024 spring transition: the day of the gap lasts 23 hours *)
 Example windows_ex_la :
-  g_windows_of 10 CG.Props.C13.la 1710000000 1710300000 Metrics.PDay
+  g_windows_of 10 g10_la 1710000000 1710300000 Metrics.PDay
   = RDone [(1709942400, 1709971200, 1710057600); (1710028800, 1710057600, 1710140400);
            (1710115200, 1710140400, 1710226800); (1710201600, 1710226800, 1710313200)]
-  /\ period_windows_dt CG.Props.C13.la 1710000000 1710300000 Metrics.PDay
-     = g_res_opt (g_windows_of 10 CG.Props.C13.la 1710000000 1710300000 Metrics.PDay).
+  /\ period_windows_dt g10_la 1710000000 1710300000 Metrics.PDay
+     = g_res_opt (g_windows_of 10 g10_la 1710000000 1710300000 Metrics.PDay).
 Proof. vm_compute. split; reflexivity. Qed.
 (* non-vacuity of the headline's hypotheses *)
 Example g_period_windows_dt_eq_inst :
-  exists l, period_windows_dt CG.Props.C13.la 1700000000 1710000000 Metrics.PMonth = Some l
-            /\ (windows_fuel CG.Props.C13.la 1700000000 1710000000 Metrics.PMonth <= 10)%nat
-            /\ g_windows_of 10 CG.Props.C13.la 1700000000 1710000000 Metrics.PMonth = RDone l
+  exists l, period_windows_dt g10_la 1700000000 1710000000 Metrics.PMonth = Some l
+            /\ (windows_fuel g10_la 1700000000 1710000000 Metrics.PMonth <= 10)%nat
+            /\ g_windows_of 10 g10_la 1700000000 1710000000 Metrics.PMonth = RDone l
             /\ length l = 5%nat.
 Proof.
   eexists. split; [vm_compute; reflexivity|]. split; [vm_compute; lia|].
@@ -619,8 +638,8 @@ Print Assumptions src_period_windows_calendar_aligned.
 
 (* non-vacuity: Los Angeles passes the zone check, and the run above is a normal return *)
 Example src_period_windows_inst :
-  MetricsP.zone_wf (MetricsP.unit_of_period Metrics.PDay) CG.Props.C13.la = true
-  /\ g_res_opt (g_windows_of 10 CG.Props.C13.la 1710000000 1710300000 Metrics.PDay) <> None
-  /\ (utc_to_wall CG.Props.C13.la 1710300000 mod MetricsP.unit_of_period Metrics.PDay = 0 ->
-      fold_of CG.Props.C13.la 1710300000 = false).
+  MetricsP.zone_wf (MetricsP.unit_of_period Metrics.PDay) g10_la = true
+  /\ g_res_opt (g_windows_of 10 g10_la 1710000000 1710300000 Metrics.PDay) <> None
+  /\ (utc_to_wall g10_la 1710300000 mod MetricsP.unit_of_period Metrics.PDay = 0 ->
+      fold_of g10_la 1710300000 = false).
 Proof. split; [vm_compute; reflexivity|]. split; [vm_compute; discriminate|]. intros _. vm_compute. reflexivity. Qed.
